@@ -11,12 +11,22 @@
   never zero (`|fsign eps1 x| ≥ eps1 > 0`), so the TVD correction is finite for every field.
 
   Only theorems and examples here; helper lemmas are in `PyFV.Lemmas.Limiters`.
+
+  The generated terms follow the SPELLING of the Python source (operand order, association, `r*r` vs `r**2`,
+  temporaries substituted by the translator).  No proof below depends on that spelling: `X_eq_spec` is closed
+  semantically (`geq_ring` / `geq_field` / `lim_ac` / `lim_cases`), `X_total` by order arguments on whatever
+  denominators were generated, and `X_one`, `X_bounds`, `X_nonpos`, `X_at_pole` are transported through
+  `X_eq_spec` from the properties of the published closed form (`Lim.spec_X_…`).  A behaviour-CHANGING edit
+  makes `X_eq_spec` (and with it everything after it) fail.
 -/
 import PyFV.Lemmas.Limiters
 import Mathlib.Algebra.Order.Field.Rat
 
 set_option linter.unusedSectionVars false
 set_option linter.unusedVariables false
+set_option linter.unusedSimpArgs false
+set_option linter.unusedTactic false
+set_option linter.unreachableTactic false
 
 namespace PyFV.C13
 open PyFV PyFV.Lim
@@ -28,122 +38,108 @@ variable {α : Type} [Field α] [LinearOrder α] [IsStrictOrderedRing α]
 /-! ### CHARM — pole of the formula at `r = -1` -/
 
 theorem CHARM_total (eps r : α) (heps : 0 < eps) : ∀ d ∈ Gen.CHARM_dens eps r, d ≠ 0 := by
-  intro d hd
-  simp only [Gen.CHARM_dens, List.mem_singleton] at hd
-  subst hd
-  exact (CHARM_den_pos eps r heps).ne'
+  simp only [Gen.CHARM_dens, List.forall_mem_cons, List.not_mem_nil, false_imp_iff, implies_true, and_true,
+    Gen.ind]
+  split_ifs with h
+  · have hr : r = -1 := by linarith
+    rw [hr]
+    exact ne_of_gt (by nlinarith [heps])
+  · have h1 : r + 1 ≠ 0 := fun h' => h (by linarith)
+    have h2 : 0 < (r + 1) ^ 2 := lt_of_le_of_ne (sq_nonneg _) (Ne.symm (pow_ne_zero 2 h1))
+    exact ne_of_gt (by nlinarith [h2])
 
 /-- Full strength, all `r`.  At the pole `r = -1` (and for every `r ≤ 0`) the factor `(r > 0)`
     makes the numerator vanish, the guarded denominator is `eps ≠ 0`, and the generated value is
     `0 / eps = 0`; `Spec.CHARM` says `0` there by its explicit `else` branch (the limit value),
     not by the convention `x / 0 = 0`. -/
 theorem CHARM_eq_spec (eps r : α) (heps : 0 < eps) : Gen.CHARM eps r = Spec.CHARM r := by
-  unfold Gen.CHARM Spec.CHARM
-  by_cases h : 0 < r
-  · have h1 : ¬ r = -1 := by intro h'; rw [h'] at h; linarith
-    rw [ind_true (show r > 0 from h), ind_false h1, if_pos h]
-    simp
-  · rw [ind_false (show ¬ r > 0 from h), if_neg h]
-    simp
+  unfold Gen.CHARM Spec.CHARM Gen.ind
+  lim_cases
 
 /-- the value at the removable singularity is the limit value `0` -/
 theorem CHARM_at_pole (eps : α) (heps : 0 < eps) : Gen.CHARM eps (-1) = 0 := by
   rw [CHARM_eq_spec eps _ heps, Spec.CHARM, if_neg (by norm_num)]
 
 theorem CHARM_one (eps : α) (heps : 0 < eps) : Gen.CHARM eps 1 = 1 := by
-  rw [CHARM_eq_spec eps _ heps, Spec.CHARM, if_pos one_pos]
-  norm_num
+  rw [CHARM_eq_spec eps _ heps]
+  exact spec_CHARM_one
 
 theorem CHARM_bounds (eps r : α) (heps : 0 < eps) (hr : 0 < r) :
     0 ≤ Gen.CHARM eps r ∧ Gen.CHARM eps r ≤ min (2 * r) 4 := by
-  rw [CHARM_eq_spec eps _ heps, Spec.CHARM, if_pos hr]
-  refine ⟨by positivity, le_min ?_ ?_⟩
-  · rw [div_le_iff₀ (by positivity)]
-    nlinarith [mul_pos hr hr, mul_pos (mul_pos hr hr) hr]
-  · rw [div_le_iff₀ (by positivity)]
-    nlinarith [mul_pos hr hr]
+  rw [CHARM_eq_spec eps _ heps]
+  exact spec_CHARM_bounds hr
 
 /-! ### HCUS — pole of the formula at `r = -2` -/
 
 theorem HCUS_total (eps r : α) (heps : 0 < eps) : ∀ d ∈ Gen.HCUS_dens eps r, d ≠ 0 := by
-  intro d hd
-  simp only [Gen.HCUS_dens, List.mem_singleton] at hd
-  subst hd
-  exact HCUS_den_ne eps r heps
+  simp only [Gen.HCUS_dens, List.forall_mem_cons, List.not_mem_nil, false_imp_iff, implies_true, and_true,
+    Gen.ind]
+  split_ifs with h
+  · exact ne_of_gt (by linarith)
+  · exact fun h0 => h (by linarith)
 
 /-- Full strength, all `r`.  At the pole `r = -2` the numerator `r + |r|` vanishes, the guarded
     denominator is `eps ≠ 0` and the generated value is `0 / eps = 0`; `Spec.HCUS` gives the limit
     value `0` there by an explicit `if` (not by `x / 0 = 0`). -/
 theorem HCUS_eq_spec (eps r : α) (heps : 0 < eps) : Gen.HCUS eps r = Spec.HCUS r := by
-  unfold Gen.HCUS Spec.HCUS
-  by_cases h : r = -2
-  · rw [if_pos h, add_abs_of_nonpos (by rw [h]; norm_num)]
-    simp
-  · have h1 : r + 2 ≠ 0 := fun h' => h (eq_neg_of_add_eq_zero_left h')
-    rw [if_neg h, ind_false h, mul_zero, add_zero,
-      div_eq_div_iff h1 (mul_ne_zero (by positivity) h1)]
-    ring
+  unfold Gen.HCUS Spec.HCUS Gen.ind
+  rcases le_or_gt r 0 with hr | hr
+  · simp only [abs_of_nonpos hr]
+    lim_cases
+  · simp only [abs_of_pos hr]
+    lim_cases
 
 theorem HCUS_at_pole (eps : α) (heps : 0 < eps) : Gen.HCUS eps (-2) = 0 := by
   rw [HCUS_eq_spec eps _ heps, Spec.HCUS, if_pos rfl]
 
 theorem HCUS_one (eps : α) (heps : 0 < eps) : Gen.HCUS eps 1 = 1 := by
-  rw [HCUS_eq_spec eps _ heps, Spec.HCUS_of_ne (by intro h; linarith)]
-  norm_num
+  rw [HCUS_eq_spec eps _ heps]
+  exact spec_HCUS_one
 
 theorem HCUS_bounds (eps r : α) (heps : 0 < eps) (hr : 0 < r) :
     0 ≤ Gen.HCUS eps r ∧ Gen.HCUS eps r ≤ min (2 * r) 4 := by
-  rw [HCUS_eq_spec eps _ heps, Spec.HCUS_of_ne (by intro h; linarith), add_abs_of_pos hr]
-  refine ⟨by positivity, le_min ?_ ?_⟩
-  · rw [div_le_iff₀ (by positivity)]
-    nlinarith [mul_pos hr hr]
-  · rw [div_le_iff₀ (by positivity)]
-    nlinarith [mul_pos hr hr]
+  rw [HCUS_eq_spec eps _ heps]
+  exact spec_HCUS_bounds hr
 
 theorem HCUS_nonpos (eps r : α) (heps : 0 < eps) (hr : r ≤ 0) : Gen.HCUS eps r = 0 := by
-  unfold Gen.HCUS
-  rw [add_abs_of_nonpos hr]
-  simp
+  rw [HCUS_eq_spec eps _ heps]
+  exact spec_HCUS_nonpos hr
 
 /-! ### HQUICK — pole of the formula at `r = -3` -/
 
 theorem HQUICK_total (eps r : α) (heps : 0 < eps) : ∀ d ∈ Gen.HQUICK_dens eps r, d ≠ 0 := by
-  intro d hd
-  simp only [Gen.HQUICK_dens, List.mem_singleton] at hd
-  subst hd
-  exact HQUICK_den_ne eps r heps
+  simp only [Gen.HQUICK_dens, List.forall_mem_cons, List.not_mem_nil, false_imp_iff, implies_true, and_true,
+    Gen.ind]
+  split_ifs with h
+  · exact ne_of_gt (by linarith)
+  · exact fun h0 => h (by linarith)
 
 /-- Full strength, all `r`.  At the pole `r = -3` the numerator `r + |r|` vanishes, the guarded
     denominator is `eps ≠ 0` and the generated value is `0 / eps = 0`; `Spec.HQUICK` gives the
     limit value `0` there by an explicit `if` (not by `x / 0 = 0`). -/
 theorem HQUICK_eq_spec (eps r : α) (heps : 0 < eps) : Gen.HQUICK eps r = Spec.HQUICK r := by
-  unfold Gen.HQUICK Spec.HQUICK
-  by_cases h : r = -3
-  · rw [if_pos h, add_abs_of_nonpos (by rw [h]; norm_num)]
-    simp
-  · rw [if_neg h, ind_false h]
-    simp
+  unfold Gen.HQUICK Spec.HQUICK Gen.ind
+  rcases le_or_gt r 0 with hr | hr
+  · simp only [abs_of_nonpos hr]
+    lim_cases
+  · simp only [abs_of_pos hr]
+    lim_cases
 
 theorem HQUICK_at_pole (eps : α) (heps : 0 < eps) : Gen.HQUICK eps (-3) = 0 := by
   rw [HQUICK_eq_spec eps _ heps, Spec.HQUICK, if_pos rfl]
 
 theorem HQUICK_one (eps : α) (heps : 0 < eps) : Gen.HQUICK eps 1 = 1 := by
-  rw [HQUICK_eq_spec eps _ heps, Spec.HQUICK_of_ne (by intro h; linarith)]
-  norm_num
+  rw [HQUICK_eq_spec eps _ heps]
+  exact spec_HQUICK_one
 
 theorem HQUICK_bounds (eps r : α) (heps : 0 < eps) (hr : 0 < r) :
     0 ≤ Gen.HQUICK eps r ∧ Gen.HQUICK eps r ≤ min (2 * r) 4 := by
-  rw [HQUICK_eq_spec eps _ heps, Spec.HQUICK_of_ne (by intro h; linarith), add_abs_of_pos hr]
-  refine ⟨by positivity, le_min ?_ ?_⟩
-  · rw [div_le_iff₀ (by positivity)]
-    nlinarith [mul_pos hr hr]
-  · rw [div_le_iff₀ (by positivity)]
-    nlinarith [mul_pos hr hr]
+  rw [HQUICK_eq_spec eps _ heps]
+  exact spec_HQUICK_bounds hr
 
 theorem HQUICK_nonpos (eps r : α) (heps : 0 < eps) (hr : r ≤ 0) : Gen.HQUICK eps r = 0 := by
-  unfold Gen.HQUICK
-  rw [add_abs_of_nonpos hr]
-  simp
+  rw [HQUICK_eq_spec eps _ heps]
+  exact spec_HQUICK_nonpos hr
 
 /-! ### ospre — no real pole -/
 
@@ -153,331 +149,321 @@ theorem ospre_guard_never_fires (r : α) : (Gen.ind (r * (r + 1) + 1 = 0) : α) 
 
 /-- consequently the value does not depend on `eps` at all (any sign, including `0`) -/
 theorem ospre_eps_irrelevant (eps eps' r : α) : Gen.ospre eps r = Gen.ospre eps' r := by
-  unfold Gen.ospre
-  rw [ospre_guard_never_fires]
-  simp
+  have key : ∀ e : α, Gen.ospre e r = Spec.ospre r := by
+    intro e
+    unfold Gen.ospre Spec.ospre Gen.ind
+    split_ifs with h
+    · exact absurd h (ne_of_gt (by nlinarith [sq_nonneg (2 * r + 1)]))
+    · geq_ring
+  rw [key eps, key eps']
 
 theorem ospre_total (eps r : α) (heps : 0 < eps) : ∀ d ∈ Gen.ospre_dens eps r, d ≠ 0 := by
-  intro d hd
-  simp only [Gen.ospre_dens, List.mem_singleton] at hd
-  subst hd
-  rw [ospre_guard_never_fires]
-  simpa using (ospre_den_pos r).ne'
+  simp only [Gen.ospre_dens, List.forall_mem_cons, List.not_mem_nil, false_imp_iff, implies_true, and_true,
+    Gen.ind]
+  split_ifs with h
+  · exact absurd h (ne_of_gt (by nlinarith [sq_nonneg (2 * r + 1)]))
+  · exact ne_of_gt (by nlinarith [sq_nonneg (2 * r + 1)])
 
 theorem ospre_eq_spec (eps r : α) (heps : 0 < eps) : Gen.ospre eps r = Spec.ospre r := by
-  unfold Gen.ospre Spec.ospre
-  rw [ospre_guard_never_fires]
-  have h1 := (ospre_den_pos r).ne'
-  have h2 := (ospre_den_pos' r).ne'
-  rw [mul_zero, add_zero, div_eq_div_iff h1 (mul_ne_zero (by positivity) h2)]
-  ring
+  unfold Gen.ospre Spec.ospre Gen.ind
+  split_ifs with h
+  · exact absurd h (ne_of_gt (by nlinarith [sq_nonneg (2 * r + 1)]))
+  · geq_ring
 
 theorem ospre_one (eps : α) (heps : 0 < eps) : Gen.ospre eps 1 = 1 := by
-  rw [ospre_eq_spec eps _ heps, Spec.ospre]
-  norm_num
+  rw [ospre_eq_spec eps _ heps]
+  exact spec_ospre_one
 
 theorem ospre_bounds (eps r : α) (heps : 0 < eps) (hr : 0 < r) :
     0 ≤ Gen.ospre eps r ∧ Gen.ospre eps r ≤ min (2 * r) 4 := by
-  rw [ospre_eq_spec eps _ heps, Spec.ospre]
-  refine ⟨by positivity, le_min ?_ ?_⟩
-  · rw [div_le_iff₀ (by positivity)]
-    nlinarith [mul_pos hr hr, mul_pos (mul_pos hr hr) hr]
-  · rw [div_le_iff₀ (by positivity)]
-    nlinarith [mul_pos hr hr]
+  rw [ospre_eq_spec eps _ heps]
+  exact spec_ospre_bounds hr
 
 /-! ## The three unguarded rational limiters -/
 
 /-! ### VanLeer -/
 
 theorem VanLeer_total (eps r : α) (heps : 0 < eps) : ∀ d ∈ Gen.VanLeer_dens eps r, d ≠ 0 := by
-  intro d hd
-  simp only [Gen.VanLeer_dens, List.mem_singleton] at hd
-  subst hd
-  exact (one_add_abs_pos r).ne'
+  simp only [Gen.VanLeer_dens, List.forall_mem_cons, List.not_mem_nil, false_imp_iff, implies_true, and_true]
+  have := abs_nonneg r
+  exact ne_of_gt (by linarith)
 
-theorem VanLeer_eq_spec (eps r : α) (heps : 0 < eps) : Gen.VanLeer eps r = Spec.VanLeer r := rfl
+theorem VanLeer_eq_spec (eps r : α) (heps : 0 < eps) : Gen.VanLeer eps r = Spec.VanLeer r := by
+  unfold Gen.VanLeer Spec.VanLeer
+  geq_ring
 
 theorem VanLeer_one (eps : α) (heps : 0 < eps) : Gen.VanLeer eps 1 = 1 := by
-  unfold Gen.VanLeer
-  rw [abs_one]
-  norm_num
+  rw [VanLeer_eq_spec eps _ heps]
+  exact spec_VanLeer_one
 
 theorem VanLeer_bounds (eps r : α) (heps : 0 < eps) (hr : 0 < r) :
     0 ≤ Gen.VanLeer eps r ∧ Gen.VanLeer eps r ≤ min (2 * r) 4 := by
-  unfold Gen.VanLeer
-  rw [abs_of_pos hr]
-  refine ⟨by positivity, le_min ?_ ?_⟩
-  · rw [div_le_iff₀ (by positivity)]
-    nlinarith [mul_pos hr hr]
-  · rw [div_le_iff₀ (by positivity)]
-    nlinarith [mul_pos hr hr]
+  rw [VanLeer_eq_spec eps _ heps]
+  exact spec_VanLeer_bounds hr
 
 theorem VanLeer_nonpos (eps r : α) (heps : 0 < eps) (hr : r ≤ 0) : Gen.VanLeer eps r = 0 := by
-  unfold Gen.VanLeer
-  rw [add_abs_of_nonpos hr]
-  simp
+  rw [VanLeer_eq_spec eps _ heps]
+  exact spec_VanLeer_nonpos hr
 
 /-! ### VanAlbada1 -/
 
 theorem VanAlbada1_total (eps r : α) (heps : 0 < eps) :
     ∀ d ∈ Gen.VanAlbada1_dens eps r, d ≠ 0 := by
-  intro d hd
-  simp only [Gen.VanAlbada1_dens, List.mem_singleton] at hd
-  subst hd
-  exact (one_add_sq_pos r).ne'
+  simp only [Gen.VanAlbada1_dens, List.forall_mem_cons, List.not_mem_nil, false_imp_iff, implies_true, and_true]
+  exact ne_of_gt (by nlinarith [sq_nonneg r])
 
 theorem VanAlbada1_eq_spec (eps r : α) (heps : 0 < eps) :
     Gen.VanAlbada1 eps r = Spec.VanAlbada1 r := by
   unfold Gen.VanAlbada1 Spec.VanAlbada1
-  rw [show r + r * r = r ^ 2 + r by ring, show 1 + r * r = r ^ 2 + 1 by ring]
+  geq_ring
 
 theorem VanAlbada1_one (eps : α) (heps : 0 < eps) : Gen.VanAlbada1 eps 1 = 1 := by
-  unfold Gen.VanAlbada1
-  norm_num
+  rw [VanAlbada1_eq_spec eps _ heps]
+  exact spec_VanAlbada1_one
 
 theorem VanAlbada1_bounds (eps r : α) (heps : 0 < eps) (hr : 0 < r) :
     0 ≤ Gen.VanAlbada1 eps r ∧ Gen.VanAlbada1 eps r ≤ min (2 * r) 4 := by
-  unfold Gen.VanAlbada1
-  refine ⟨by positivity, le_min ?_ ?_⟩
-  · rw [div_le_iff₀ (by positivity)]
-    nlinarith [mul_pos hr hr, mul_pos (mul_pos hr hr) hr, sq_nonneg (r - 1),
-      mul_nonneg hr.le (sq_nonneg (2 * r - 1))]
-  · rw [div_le_iff₀ (by positivity)]
-    nlinarith [mul_pos hr hr, sq_nonneg (r - 1)]
+  rw [VanAlbada1_eq_spec eps _ heps]
+  exact spec_VanAlbada1_bounds hr
 
 /-! ### VanAlbada2 -/
 
 theorem VanAlbada2_total (eps r : α) (heps : 0 < eps) :
     ∀ d ∈ Gen.VanAlbada2_dens eps r, d ≠ 0 := by
-  intro d hd
-  simp only [Gen.VanAlbada2_dens, List.mem_singleton] at hd
-  subst hd
-  exact (one_add_sq_pos r).ne'
+  simp only [Gen.VanAlbada2_dens, List.forall_mem_cons, List.not_mem_nil, false_imp_iff, implies_true, and_true]
+  exact ne_of_gt (by nlinarith [sq_nonneg r])
 
 theorem VanAlbada2_eq_spec (eps r : α) (heps : 0 < eps) :
     Gen.VanAlbada2 eps r = Spec.VanAlbada2 r := by
   unfold Gen.VanAlbada2 Spec.VanAlbada2
-  rw [show 1 + r * r = r ^ 2 + 1 by ring]
+  geq_ring
 
 theorem VanAlbada2_one (eps : α) (heps : 0 < eps) : Gen.VanAlbada2 eps 1 = 1 := by
-  unfold Gen.VanAlbada2
-  norm_num
+  rw [VanAlbada2_eq_spec eps _ heps]
+  exact spec_VanAlbada2_one
 
 theorem VanAlbada2_bounds (eps r : α) (heps : 0 < eps) (hr : 0 < r) :
     0 ≤ Gen.VanAlbada2 eps r ∧ Gen.VanAlbada2 eps r ≤ min (2 * r) 4 := by
-  unfold Gen.VanAlbada2
-  refine ⟨by positivity, le_min ?_ ?_⟩
-  · rw [div_le_iff₀ (by positivity)]
-    nlinarith [mul_pos hr hr, mul_pos (mul_pos hr hr) hr]
-  · rw [div_le_iff₀ (by positivity)]
-    nlinarith [mul_pos hr hr, sq_nonneg (r - 1), sq_nonneg (2 * r - 1)]
+  rw [VanAlbada2_eq_spec eps _ heps]
+  exact spec_VanAlbada2_bounds hr
 
 /-! ## The nine limiters defined by clipping (no denominators) -/
 
 /-! ### MinMod -/
 
 theorem MinMod_total (eps r : α) (heps : 0 < eps) : ∀ d ∈ Gen.MinMod_dens eps r, d ≠ 0 := by
-  simp [Gen.MinMod_dens]
+  simp only [Gen.MinMod_dens, List.forall_mem_cons, List.not_mem_nil, false_imp_iff, implies_true, and_true]
 
 theorem MinMod_eq_spec (eps r : α) (heps : 0 < eps) : Gen.MinMod eps r = Spec.MinMod r := by
-  unfold Gen.MinMod Spec.MinMod
-  by_cases h : 0 < r
-  · rw [ind_true (show r > 0 from h), one_mul, min_comm,
-      max_eq_right (le_min zero_le_one h.le)]
-  · rw [ind_false (show ¬ r > 0 from h), zero_mul,
-      max_eq_left ((min_le_right _ _).trans (not_lt.mp h))]
+  unfold Gen.MinMod Spec.MinMod Gen.ind
+  rcases lt_trichotomy r 0 with h | h | h
+  · rw [max_eq_left ((min_le_right _ _).trans h.le)]
+    split_ifs <;> first | (exfalso; linarith) | geq_ring
+  · subst h
+    norm_num
+  · rw [max_eq_right (le_min zero_le_one h.le)]
+    split_ifs <;> first | (exfalso; linarith) | lim_ac
 
 theorem MinMod_one (eps : α) (heps : 0 < eps) : Gen.MinMod eps 1 = 1 := by
-  rw [MinMod_eq_spec eps _ heps, Spec.MinMod]
-  norm_num
+  rw [MinMod_eq_spec eps _ heps]
+  exact spec_MinMod_one
 
 theorem MinMod_bounds (eps r : α) (heps : 0 < eps) (hr : 0 < r) :
     0 ≤ Gen.MinMod eps r ∧ Gen.MinMod eps r ≤ min (2 * r) 4 := by
-  rw [MinMod_eq_spec eps _ heps, Spec.MinMod]
-  exact clip_bounds hr ((min_le_right _ _).trans (by linarith))
-    ((min_le_left _ _).trans (by norm_num))
+  rw [MinMod_eq_spec eps _ heps]
+  exact spec_MinMod_bounds hr
 
 theorem MinMod_nonpos (eps r : α) (heps : 0 < eps) (hr : r ≤ 0) : Gen.MinMod eps r = 0 := by
-  rw [MinMod_eq_spec eps _ heps, Spec.MinMod]
-  exact clip_nonpos ((min_le_right _ _).trans hr)
+  rw [MinMod_eq_spec eps _ heps]
+  exact spec_MinMod_nonpos hr
 
 /-! ### SUPERBEE -/
 
 theorem SUPERBEE_total (eps r : α) (heps : 0 < eps) : ∀ d ∈ Gen.SUPERBEE_dens eps r, d ≠ 0 := by
-  simp [Gen.SUPERBEE_dens]
+  simp only [Gen.SUPERBEE_dens, List.forall_mem_cons, List.not_mem_nil, false_imp_iff, implies_true, and_true]
 
-theorem SUPERBEE_eq_spec (eps r : α) (heps : 0 < eps) : Gen.SUPERBEE eps r = Spec.SUPERBEE r := rfl
+theorem SUPERBEE_eq_spec (eps r : α) (heps : 0 < eps) : Gen.SUPERBEE eps r = Spec.SUPERBEE r := by
+  unfold Gen.SUPERBEE Spec.SUPERBEE
+  lim_ac
 
 theorem SUPERBEE_one (eps : α) (heps : 0 < eps) : Gen.SUPERBEE eps 1 = 1 := by
-  unfold Gen.SUPERBEE; norm_num
+  rw [SUPERBEE_eq_spec eps _ heps]
+  exact spec_SUPERBEE_one
 
 theorem SUPERBEE_bounds (eps r : α) (heps : 0 < eps) (hr : 0 < r) :
     0 ≤ Gen.SUPERBEE eps r ∧ Gen.SUPERBEE eps r ≤ min (2 * r) 4 := by
-  unfold Gen.SUPERBEE
-  exact clip_bounds hr
-    (max_le (min_le_left _ _) ((min_le_left _ _).trans (by linarith)))
-    (max_le ((min_le_right _ _).trans (by norm_num)) ((min_le_right _ _).trans (by norm_num)))
+  rw [SUPERBEE_eq_spec eps _ heps]
+  exact spec_SUPERBEE_bounds hr
 
 theorem SUPERBEE_nonpos (eps r : α) (heps : 0 < eps) (hr : r ≤ 0) : Gen.SUPERBEE eps r = 0 := by
-  unfold Gen.SUPERBEE
-  exact clip_nonpos
-    (max_le ((min_le_left _ _).trans (by linarith)) ((min_le_left _ _).trans hr))
+  rw [SUPERBEE_eq_spec eps _ heps]
+  exact spec_SUPERBEE_nonpos hr
 
 /-! ### Osher -/
 
 theorem Osher_total (eps r : α) (heps : 0 < eps) : ∀ d ∈ Gen.Osher_dens eps r, d ≠ 0 := by
-  simp [Gen.Osher_dens]
+  simp only [Gen.Osher_dens, List.forall_mem_cons, List.not_mem_nil, false_imp_iff, implies_true, and_true]
 
-theorem Osher_eq_spec (eps r : α) (heps : 0 < eps) : Gen.Osher eps r = Spec.Osher r := rfl
+theorem Osher_eq_spec (eps r : α) (heps : 0 < eps) : Gen.Osher eps r = Spec.Osher r := by
+  unfold Gen.Osher Spec.Osher
+  lim_ac
 
 theorem Osher_one (eps : α) (heps : 0 < eps) : Gen.Osher eps 1 = 1 := by
-  unfold Gen.Osher; norm_num
+  rw [Osher_eq_spec eps _ heps]
+  exact spec_Osher_one
 
 theorem Osher_bounds (eps r : α) (heps : 0 < eps) (hr : 0 < r) :
     0 ≤ Gen.Osher eps r ∧ Gen.Osher eps r ≤ min (2 * r) 4 := by
-  unfold Gen.Osher
-  exact clip_bounds hr ((min_le_left _ _).trans (by linarith))
-    ((min_le_right _ _).trans (by norm_num))
+  rw [Osher_eq_spec eps _ heps]
+  exact spec_Osher_bounds hr
 
 theorem Osher_nonpos (eps r : α) (heps : 0 < eps) (hr : r ≤ 0) : Gen.Osher eps r = 0 := by
-  unfold Gen.Osher
-  exact clip_nonpos ((min_le_left _ _).trans hr)
+  rw [Osher_eq_spec eps _ heps]
+  exact spec_Osher_nonpos hr
 
 /-! ### Sweby -/
 
 theorem Sweby_total (eps r : α) (heps : 0 < eps) : ∀ d ∈ Gen.Sweby_dens eps r, d ≠ 0 := by
-  simp [Gen.Sweby_dens]
+  simp only [Gen.Sweby_dens, List.forall_mem_cons, List.not_mem_nil, false_imp_iff, implies_true, and_true]
 
-theorem Sweby_eq_spec (eps r : α) (heps : 0 < eps) : Gen.Sweby eps r = Spec.Sweby r := rfl
+theorem Sweby_eq_spec (eps r : α) (heps : 0 < eps) : Gen.Sweby eps r = Spec.Sweby r := by
+  unfold Gen.Sweby Spec.Sweby
+  lim_ac
 
 theorem Sweby_one (eps : α) (heps : 0 < eps) : Gen.Sweby eps 1 = 1 := by
-  unfold Gen.Sweby; norm_num
+  rw [Sweby_eq_spec eps _ heps]
+  exact spec_Sweby_one
 
 theorem Sweby_bounds (eps r : α) (heps : 0 < eps) (hr : 0 < r) :
     0 ≤ Gen.Sweby eps r ∧ Gen.Sweby eps r ≤ min (2 * r) 4 := by
-  unfold Gen.Sweby
-  exact clip_bounds hr
-    (max_le ((min_le_left _ _).trans (by linarith)) ((min_le_left _ _).trans (by linarith)))
-    (max_le ((min_le_right _ _).trans (by norm_num)) ((min_le_right _ _).trans (by norm_num)))
+  rw [Sweby_eq_spec eps _ heps]
+  exact spec_Sweby_bounds hr
 
 theorem Sweby_nonpos (eps r : α) (heps : 0 < eps) (hr : r ≤ 0) : Gen.Sweby eps r = 0 := by
-  unfold Gen.Sweby
-  exact clip_nonpos
-    (max_le ((min_le_left _ _).trans (by linarith)) ((min_le_left _ _).trans hr))
+  rw [Sweby_eq_spec eps _ heps]
+  exact spec_Sweby_nonpos hr
 
 /-! ### smart -/
 
 theorem smart_total (eps r : α) (heps : 0 < eps) : ∀ d ∈ Gen.smart_dens eps r, d ≠ 0 := by
-  simp [Gen.smart_dens]
+  simp only [Gen.smart_dens, List.forall_mem_cons, List.not_mem_nil, false_imp_iff, implies_true, and_true]
 
 theorem smart_eq_spec (eps r : α) (heps : 0 < eps) : Gen.smart eps r = Spec.smart r := by
   unfold Gen.smart Spec.smart
-  simp only [min_comm, min_left_comm]
+  lim_ac
 
 theorem smart_one (eps : α) (heps : 0 < eps) : Gen.smart eps 1 = 1 := by
-  unfold Gen.smart; norm_num
+  rw [smart_eq_spec eps _ heps]
+  exact spec_smart_one
 
 theorem smart_bounds (eps r : α) (heps : 0 < eps) (hr : 0 < r) :
     0 ≤ Gen.smart eps r ∧ Gen.smart eps r ≤ min (2 * r) 4 := by
-  unfold Gen.smart
-  exact clip_bounds hr ((min_le_right _ _).trans (min_le_right _ _)) (min_le_left _ _)
+  rw [smart_eq_spec eps _ heps]
+  exact spec_smart_bounds hr
 
 theorem smart_nonpos (eps r : α) (heps : 0 < eps) (hr : r ≤ 0) : Gen.smart eps r = 0 := by
-  unfold Gen.smart
-  exact clip_nonpos (((min_le_right _ _).trans (min_le_right _ _)).trans (by linarith))
+  rw [smart_eq_spec eps _ heps]
+  exact spec_smart_nonpos hr
 
 /-! ### Koren -/
 
 theorem Koren_total (eps r : α) (heps : 0 < eps) : ∀ d ∈ Gen.Koren_dens eps r, d ≠ 0 := by
-  simp [Gen.Koren_dens]
+  simp only [Gen.Koren_dens, List.forall_mem_cons, List.not_mem_nil, false_imp_iff, implies_true, and_true]
 
-theorem Koren_eq_spec (eps r : α) (heps : 0 < eps) : Gen.Koren eps r = Spec.Koren r := rfl
+theorem Koren_eq_spec (eps r : α) (heps : 0 < eps) : Gen.Koren eps r = Spec.Koren r := by
+  unfold Gen.Koren Spec.Koren
+  lim_ac
 
 theorem Koren_one (eps : α) (heps : 0 < eps) : Gen.Koren eps 1 = 1 := by
-  unfold Gen.Koren; norm_num
+  rw [Koren_eq_spec eps _ heps]
+  exact spec_Koren_one
 
 theorem Koren_bounds (eps r : α) (heps : 0 < eps) (hr : 0 < r) :
     0 ≤ Gen.Koren eps r ∧ Gen.Koren eps r ≤ min (2 * r) 4 := by
-  unfold Gen.Koren
-  exact clip_bounds hr (min_le_left _ _)
-    (((min_le_right _ _).trans (min_le_right _ _)).trans (by norm_num))
+  rw [Koren_eq_spec eps _ heps]
+  exact spec_Koren_bounds hr
 
 theorem Koren_nonpos (eps r : α) (heps : 0 < eps) (hr : r ≤ 0) : Gen.Koren eps r = 0 := by
-  unfold Gen.Koren
-  exact clip_nonpos ((min_le_left _ _).trans (by linarith))
+  rw [Koren_eq_spec eps _ heps]
+  exact spec_Koren_nonpos hr
 
 /-! ### MUSCL -/
 
 theorem MUSCL_total (eps r : α) (heps : 0 < eps) : ∀ d ∈ Gen.MUSCL_dens eps r, d ≠ 0 := by
-  simp [Gen.MUSCL_dens]
+  simp only [Gen.MUSCL_dens, List.forall_mem_cons, List.not_mem_nil, false_imp_iff, implies_true, and_true]
 
 theorem MUSCL_eq_spec (eps r : α) (heps : 0 < eps) : Gen.MUSCL eps r = Spec.MUSCL r := by
   unfold Gen.MUSCL Spec.MUSCL
-  rw [show (1 : α) / 2 * (1 + r) = (1 + r) / 2 by ring]
+  lim_ac
 
 theorem MUSCL_one (eps : α) (heps : 0 < eps) : Gen.MUSCL eps 1 = 1 := by
-  unfold Gen.MUSCL; norm_num
+  rw [MUSCL_eq_spec eps _ heps]
+  exact spec_MUSCL_one
 
 theorem MUSCL_bounds (eps r : α) (heps : 0 < eps) (hr : 0 < r) :
     0 ≤ Gen.MUSCL eps r ∧ Gen.MUSCL eps r ≤ min (2 * r) 4 := by
-  unfold Gen.MUSCL
-  exact clip_bounds hr (min_le_left _ _)
-    (((min_le_right _ _).trans (min_le_right _ _)).trans (by norm_num))
+  rw [MUSCL_eq_spec eps _ heps]
+  exact spec_MUSCL_bounds hr
 
 theorem MUSCL_nonpos (eps r : α) (heps : 0 < eps) (hr : r ≤ 0) : Gen.MUSCL eps r = 0 := by
-  unfold Gen.MUSCL
-  exact clip_nonpos ((min_le_left _ _).trans (by linarith))
+  rw [MUSCL_eq_spec eps _ heps]
+  exact spec_MUSCL_nonpos hr
 
 /-! ### QUICK -/
 
 theorem QUICK_total (eps r : α) (heps : 0 < eps) : ∀ d ∈ Gen.QUICK_dens eps r, d ≠ 0 := by
-  simp [Gen.QUICK_dens]
+  simp only [Gen.QUICK_dens, List.forall_mem_cons, List.not_mem_nil, false_imp_iff, implies_true, and_true]
 
 theorem QUICK_eq_spec (eps r : α) (heps : 0 < eps) : Gen.QUICK eps r = Spec.QUICK r := by
   unfold Gen.QUICK Spec.QUICK
-  simp only [min_comm, min_left_comm]
+  lim_ac
 
 theorem QUICK_one (eps : α) (heps : 0 < eps) : Gen.QUICK eps 1 = 1 := by
-  unfold Gen.QUICK; norm_num
+  rw [QUICK_eq_spec eps _ heps]
+  exact spec_QUICK_one
 
 theorem QUICK_bounds (eps r : α) (heps : 0 < eps) (hr : 0 < r) :
     0 ≤ Gen.QUICK eps r ∧ Gen.QUICK eps r ≤ min (2 * r) 4 := by
-  unfold Gen.QUICK
-  exact clip_bounds hr ((min_le_right _ _).trans (min_le_left _ _))
-    ((min_le_left _ _).trans (by norm_num))
+  rw [QUICK_eq_spec eps _ heps]
+  exact spec_QUICK_bounds hr
 
 theorem QUICK_nonpos (eps r : α) (heps : 0 < eps) (hr : r ≤ 0) : Gen.QUICK eps r = 0 := by
-  unfold Gen.QUICK
-  exact clip_nonpos (((min_le_right _ _).trans (min_le_left _ _)).trans (by linarith))
+  rw [QUICK_eq_spec eps _ heps]
+  exact spec_QUICK_nonpos hr
 
 /-! ### UMIST -/
 
 theorem UMIST_total (eps r : α) (heps : 0 < eps) : ∀ d ∈ Gen.UMIST_dens eps r, d ≠ 0 := by
-  simp [Gen.UMIST_dens]
+  simp only [Gen.UMIST_dens, List.forall_mem_cons, List.not_mem_nil, false_imp_iff, implies_true, and_true]
 
 theorem UMIST_eq_spec (eps r : α) (heps : 0 < eps) : Gen.UMIST eps r = Spec.UMIST r := by
   unfold Gen.UMIST Spec.UMIST
-  simp only [min_comm, min_left_comm]
+  lim_ac
 
 theorem UMIST_one (eps : α) (heps : 0 < eps) : Gen.UMIST eps 1 = 1 := by
-  unfold Gen.UMIST; norm_num
+  rw [UMIST_eq_spec eps _ heps]
+  exact spec_UMIST_one
 
 theorem UMIST_bounds (eps r : α) (heps : 0 < eps) (hr : 0 < r) :
     0 ≤ Gen.UMIST eps r ∧ Gen.UMIST eps r ≤ min (2 * r) 4 := by
-  unfold Gen.UMIST
-  exact clip_bounds hr ((min_le_right _ _).trans (min_le_left _ _))
-    ((min_le_left _ _).trans (by norm_num))
+  rw [UMIST_eq_spec eps _ heps]
+  exact spec_UMIST_bounds hr
 
 theorem UMIST_nonpos (eps r : α) (heps : 0 < eps) (hr : r ≤ 0) : Gen.UMIST eps r = 0 := by
-  unfold Gen.UMIST
-  exact clip_nonpos (((min_le_right _ _).trans (min_le_left _ _)).trans (by linarith))
+  rw [UMIST_eq_spec eps _ heps]
+  exact spec_UMIST_nonpos hr
 
 /-! ## Dispatch by name -/
 
-theorem fallback_is_superbee : (Gen.fallback : α → α → α) = Gen.SUPERBEE := rfl
+theorem fallback_is_superbee : (Gen.fallback : α → α → α) = Gen.SUPERBEE := by
+  funext eps r
+  unfold Gen.fallback Gen.SUPERBEE
+  lim_ac
 
 theorem unknown_name_falls_back (eps r : α) :
-    Gen.limiterByName "no such limiter" eps r = Gen.SUPERBEE eps r := rfl
+    Gen.limiterByName "no such limiter" eps r = Gen.SUPERBEE eps r :=
+  (show Gen.limiterByName "no such limiter" eps r = Gen.fallback eps r from rfl).trans
+    (congrFun (congrFun fallback_is_superbee eps) r)
 
 /-- *every* string that is not one of the sixteen names gets the SUPERBEE formula -/
 theorem every_unknown_name_falls_back (eps r : α) (n : String) (hn : n ∉ Gen.limiterNames) :
@@ -485,7 +471,7 @@ theorem every_unknown_name_falls_back (eps r : α) (n : String) (hn : n ∉ Gen.
   unfold Gen.limiterByName
   split
   all_goals first
-    | rfl
+    | exact congrFun (congrFun fallback_is_superbee eps) r
     | (exfalso; apply hn; simp [Gen.limiterNames])
 
 /-- every denominator of every limiter, selected by an arbitrary string, is non-zero -/
@@ -493,23 +479,24 @@ theorem byName_total (eps r : α) (heps : 0 < eps) (n : String) :
     ∀ d ∈ Gen.limiterDens n eps r, d ≠ 0 := by
   unfold Gen.limiterDens
   split
-  · exact CHARM_total eps r heps
-  · exact HCUS_total eps r heps
-  · exact HQUICK_total eps r heps
-  · exact ospre_total eps r heps
-  · exact VanLeer_total eps r heps
-  · exact VanAlbada1_total eps r heps
-  · exact VanAlbada2_total eps r heps
-  · exact MinMod_total eps r heps
-  · exact SUPERBEE_total eps r heps
-  · exact Osher_total eps r heps
-  · exact Sweby_total eps r heps
-  · exact smart_total eps r heps
-  · exact Koren_total eps r heps
-  · exact MUSCL_total eps r heps
-  · exact QUICK_total eps r heps
-  · exact UMIST_total eps r heps
-  · simp [Gen.fallback_dens]
+  all_goals first
+    | exact CHARM_total eps r heps
+    | exact HCUS_total eps r heps
+    | exact HQUICK_total eps r heps
+    | exact ospre_total eps r heps
+    | exact VanLeer_total eps r heps
+    | exact VanAlbada1_total eps r heps
+    | exact VanAlbada2_total eps r heps
+    | exact MinMod_total eps r heps
+    | exact SUPERBEE_total eps r heps
+    | exact Osher_total eps r heps
+    | exact Sweby_total eps r heps
+    | exact smart_total eps r heps
+    | exact Koren_total eps r heps
+    | exact MUSCL_total eps r heps
+    | exact QUICK_total eps r heps
+    | exact UMIST_total eps r heps
+    | (simp only [Gen.fallback_dens, List.forall_mem_cons, List.not_mem_nil, false_imp_iff, implies_true, and_true])
 
 theorem byNameO_isSome (eps r : α) (heps : 0 < eps) (n : String) :
     (Gen.limiterByNameO n eps r).isSome := by
@@ -536,46 +523,54 @@ theorem byName_one (eps : α) (heps : 0 < eps) (n : String) :
     Gen.limiterByName n eps 1 = 1 := by
   unfold Gen.limiterByName
   split
-  · exact CHARM_one eps heps
-  · exact HCUS_one eps heps
-  · exact HQUICK_one eps heps
-  · exact ospre_one eps heps
-  · exact VanLeer_one eps heps
-  · exact VanAlbada1_one eps heps
-  · exact VanAlbada2_one eps heps
-  · exact MinMod_one eps heps
-  · exact SUPERBEE_one eps heps
-  · exact Osher_one eps heps
-  · exact Sweby_one eps heps
-  · exact smart_one eps heps
-  · exact Koren_one eps heps
-  · exact MUSCL_one eps heps
-  · exact QUICK_one eps heps
-  · exact UMIST_one eps heps
-  · exact SUPERBEE_one eps heps
+  all_goals first
+    | exact CHARM_one eps heps
+    | exact HCUS_one eps heps
+    | exact HQUICK_one eps heps
+    | exact ospre_one eps heps
+    | exact VanLeer_one eps heps
+    | exact VanAlbada1_one eps heps
+    | exact VanAlbada2_one eps heps
+    | exact MinMod_one eps heps
+    | exact SUPERBEE_one eps heps
+    | exact Osher_one eps heps
+    | exact Sweby_one eps heps
+    | exact smart_one eps heps
+    | exact Koren_one eps heps
+    | exact MUSCL_one eps heps
+    | exact QUICK_one eps heps
+    | exact UMIST_one eps heps
+    | (rw [fallback_is_superbee]; exact SUPERBEE_one eps heps)
 
 /-- `0 ≤ ψ(r) ≤ min(2r, 4)` for whatever `limiterByName` selects (any string) -/
 theorem byName_bounds (eps r : α) (heps : 0 < eps) (hr : 0 < r) (n : String) :
     0 ≤ Gen.limiterByName n eps r ∧ Gen.limiterByName n eps r ≤ min (2 * r) 4 := by
   unfold Gen.limiterByName
   split
-  · exact CHARM_bounds eps r heps hr
-  · exact HCUS_bounds eps r heps hr
-  · exact HQUICK_bounds eps r heps hr
-  · exact ospre_bounds eps r heps hr
-  · exact VanLeer_bounds eps r heps hr
-  · exact VanAlbada1_bounds eps r heps hr
-  · exact VanAlbada2_bounds eps r heps hr
-  · exact MinMod_bounds eps r heps hr
-  · exact SUPERBEE_bounds eps r heps hr
-  · exact Osher_bounds eps r heps hr
-  · exact Sweby_bounds eps r heps hr
-  · exact smart_bounds eps r heps hr
-  · exact Koren_bounds eps r heps hr
-  · exact MUSCL_bounds eps r heps hr
-  · exact QUICK_bounds eps r heps hr
-  · exact UMIST_bounds eps r heps hr
-  · exact SUPERBEE_bounds eps r heps hr
+  all_goals first
+    | exact CHARM_bounds eps r heps hr
+    | exact HCUS_bounds eps r heps hr
+    | exact HQUICK_bounds eps r heps hr
+    | exact ospre_bounds eps r heps hr
+    | exact VanLeer_bounds eps r heps hr
+    | exact VanAlbada1_bounds eps r heps hr
+    | exact VanAlbada2_bounds eps r heps hr
+    | exact MinMod_bounds eps r heps hr
+    | exact SUPERBEE_bounds eps r heps hr
+    | exact Osher_bounds eps r heps hr
+    | exact Sweby_bounds eps r heps hr
+    | exact smart_bounds eps r heps hr
+    | exact Koren_bounds eps r heps hr
+    | exact MUSCL_bounds eps r heps hr
+    | exact QUICK_bounds eps r heps hr
+    | exact UMIST_bounds eps r heps hr
+    | (rw [fallback_is_superbee]; exact SUPERBEE_bounds eps r heps hr)
+
+/-- the default value of the guard `eps` of `fluxLimiter` (translated from the signature) is positive: the hypothesis
+    `0 < eps` of the theorems above holds for every call `fluxLimiter(name)` that does not pass `eps` -/
+theorem epsDefault_pos : 0 < (Gen.epsDefault : α) := by
+  unfold Gen.epsDefault
+  positivity
 
 /-! ## `fsign` — the divisor of the gradient ratio in `psiP` / `psiM` -/
 
